@@ -511,7 +511,9 @@ impl<'a, 'b> InternalDelphiLogicalLineParser<'a, 'b> {
                         self.consolidate_class_op_in();
                     }
                 }
-                TT::Keyword(KK::Strict) | TT::IdentifierOrKeyword(KK::Strict) => {
+                TT::Keyword(KK::Strict) | TT::IdentifierOrKeyword(KK::Strict)
+                    if self.is_in_type_decl() =>
+                {
                     self.next_token();
                 }
                 TT::Keyword(
